@@ -98,7 +98,9 @@ func killApplet() {
 // ------------------------------------------------------------------------------------------------
 // universe
 
-var files = []string{"a", "b", "src/x", "src/y", "src/a"}
+// index 5 is reserved (spokfileItem); index 6 is a file whose NAME is full of glob meta-characters but has no `*`: a
+// literal dependency, the file of exactly that name
+var files = []string{"a", "b", "src/x", "src/y", "src/a", "\x00reserved", "q[x]{y,z}?.t"}
 
 type taskDef struct {
 	name  string
@@ -132,6 +134,8 @@ var templates = []template{
 	{[]taskDef{{"A", []string{"src/*"}, nil}, {"B", []string{"b"}, []string{"A"}}}, []int{2, 3, 1}},
 	// 9: two tasks with the very same dependency list, the first of which may rewrite those files (a formatter, then a build)
 	{[]taskDef{{"A", []string{"src/*"}, nil}, {"B", []string{"src/*"}, []string{"A"}}}, []int{2, 3}},
+	// 10: a literal dependency whose name has glob meta-characters (but no `*`), next to a plain one
+	{[]taskDef{{"A", []string{"q[x]{y,z}?.t", "b"}, nil}}, []int{6, 1}},
 }
 
 func (t template) text() string {
@@ -1137,6 +1141,7 @@ var alpha = map[int]alphabet{
 	7: {[]string{"w.0.1", "d.0", "w.4.1", "d.4", "w.0.2"}, runsOf([]string{"A"})},
 	8: {[]string{"d.2", "w.2.1", "w.2.3", "w.3.3", "d.3"}, runsOf([]string{"A"})},
 	9: {[]string{"w.2.1", "w.2.2", "x.A.2.2", "x.A.2.1", "f.B"}, runsOf([]string{"B", "A"})},
+	10: {[]string{"w.6.1", "w.6.2", "d.6", "w.1.2", "w.1.1"}, runsOf([]string{"A"})},
 }
 
 // all histories of exactly `depth` events whose last event is a run (their prefixes are checked on the way)
@@ -1432,6 +1437,7 @@ func gen(w *bufio.Writer, args map[string]string) {
 		} else {
 			exhaustive(w, 0, 4)
 			exhaustive(w, 2, 4)
+			exhaustive(w, 8, 5) // a glob that comes to match nothing under a forced run, then the same files again
 		}
 		crashFamily(w, 2, 1, 8, quickTears, 4)
 		// a forced run on changed inputs that is cut short or cannot write the cache, then the revert: --force never
@@ -1468,6 +1474,7 @@ func gen(w *bufio.Writer, args map[string]string) {
 			exhaustive(w, 7, 6)
 			exhaustive(w, 8, 7)
 			exhaustive(w, 9, 5)
+			exhaustive(w, 10, 6)
 			if prop == "C01" {
 				crashFamily(w, 2, 2, 8, quickTears, 1)
 			}
@@ -1479,6 +1486,7 @@ func gen(w *bufio.Writer, args map[string]string) {
 			exhaustive(w, 7, 5)
 			exhaustive(w, 8, 6)
 			exhaustive(w, 9, 4) // commands that rewrite the files a later task of the same run depends on
+			exhaustive(w, 10, 5)
 			if prop == "C01" {
 				crashFamily(w, 2, 1, 8, quickTears, 2)
 			} else {
